@@ -7,6 +7,9 @@ CRYPTO_TB = ["SHA-256/512 are Section variables in the theorems (collision disju
 PROPS = {
     "C01": {"coq": "Properties/C01.v", "gens": ["C01"], "trusted_base": CRYPTO_TB},
     "C02": {"coq": "Properties/C02.v", "gens": ["C02"], "trusted_base": CRYPTO_TB},
+    "C03": {"coq": "Properties/C03.v", "gens": ["C03"]},
+    "C04": {"coq": "Properties/C04.v", "gens": ["C04"]},
+    "C05": {"coq": "Properties/C05.v", "gens": ["C05"]},
     "C08": {"coq": "Properties/C08.v", "gens": ["C08"], "trusted_base": CRYPTO_TB},
     "C09": {"coq": "Properties/C09.v", "gens": ["C09"], "trusted_base": CRYPTO_TB},
     "C11": {"coq": "Properties/C11.v", "gens": ["C11"]},
